@@ -204,11 +204,11 @@ def run_state_rules(ck, facts, tier, hk):
             return Sym("ctor", "Ok", Rec(FXR, {"fx_rates": Sym("new", "fx_rates"), "currencies": Sym("new", "currencies"), "fx_array": Sym("new", "fx_array")}))
         me = Rec(FXR, {"fx_rates": Sym("field", "fx_rates"), "currencies": Sym("field", "currencies"), "fx_array": Sym("field", "fx_array")})
         INC = Sym("param", "incoming")
-        pair_eq = lambda ev, vals, e: Sym("cmp", "Eq", vkey(vals[0]), vkey(vals[1]))
+        pair_eq = lambda ev, vals, e: cel.eq_sym(vals[0], vals[1])
         outs = cel.Ev(facts, hooks=dict(hk, **{"FXRates::try_new": cap_try_new, "FXPair as std::cmp::PartialEq>::eq": pair_eq})).explore(fn, [me, INC])
         stored = Sym("field", "fx_rates")
-        same_pair = Sym("cmp", "Eq", vkey(fld(at(stored, "q1"), "pair")), vkey(fld(at(INC, "q0"), "pair")))
-        same_pair2 = Sym("cmp", "Eq", vkey(fld(at(INC, "q0"), "pair")), vkey(fld(at(stored, "q1"), "pair")))
+        same_pair = cel.eq_sym(fld(at(stored, "q1"), "pair"), fld(at(INC, "q0"), "pair"))
+        same_pair2 = same_pair
         guards = [vkey(Sym("forall", vkey(INC), vkey(Sym("exists", vkey(stored), vkey(sp))))) for sp in (same_pair, same_pair2)]
         errs = [o for o in outs if isinstance(o["ret"], Sym) and o["ret"].tag[:2] == ("ctor", "Err")]
         oks = [o for o in outs if isinstance(o["ret"], Sym) and o["ret"].tag[:2] == ("ctor", "Ok")]
@@ -238,7 +238,7 @@ def run_state_rules(ck, facts, tier, hk):
             st = at(stored, "q1")
             cands = []
             for l, rr in ((fld(inc, "pair"), fld(st, "pair")), (fld(st, "pair"), fld(inc, "pair"))):
-                for eq in (Sym("m", "eq", vkey(l), (vkey(rr),)), Sym("cmp", "Eq", vkey(l), vkey(rr))):
+                for eq in (cel.eq_sym(l, rr),):
                     body = Alt([(("if", vkey(eq)), i_), (("not", ("if", vkey(eq))), Poly.atom("acc"))])
                     cands.append(Poly.atom(("fold", vkey(stored), Poly.const(0).key(), vkey(body))).key())
             ok6 = len(w["idx"]) == 1 and vkey(w["idx"][0]) in cands and vkey(w["val"]) == vkey(inc) and [l[1] for l in w["loops"]] == [vkey(INC)]
